@@ -134,7 +134,7 @@ def part_argv(ctx, n):
             ctx.violate('property', f'cli-path:{shape(out)}', '__main__.py hands main() an output path that is not the requested one',
                         inp={'part': 'argv', 'cwd': cwd, 'args': args, 'fail': fail}, expected=want, observed={'argv': seen, 'cwd': cwd_seen})
         if (code != 0) != bool(fail):
-            ctx.violate('property', 'cli-exit-status:' + ('bare-sys-exit' if fail == 2 else 'exception'),
+            ctx.violate('property', 'cli-exit-status:' + ('bare-sys-exit' if fail == 2 else 'exception') + ':stubbed-main',
                         '__main__.py: exit status does not reflect the outcome of main()'
                         + (' (main() ended with a bare sys.exit())' if fail == 2 else ''),
                         inp={'part': 'argv', 'cwd': cwd, 'args': args, 'fail': fail},
